@@ -22,8 +22,18 @@ POOLS = {
     'casepair': ['abc', 'ABC', 'Abc', 'aBc', 'abC', 'ABc', 'aBC', 'AbC'],
     # names that are substrings of one another
     'substr': ['F1', 'F10', 'F100', 'F', 'F1a', 'aF1', 'Car', 'CarRadio', 'Radio', 'Ca', 'r', 'adi', 'F10a', 'dio'],
+    # names that collapse onto one another when non-word characters are normalised
+    'nearsame': ['x y', 'x-y', 'x_y', 'x+y', 'x/y', 'x:y', 'x y ', 'x  y', 'x=y', 'x,y', 'x|y', 'x&y'],
+    # not in Unicode normal form C (decomposed accents, compatibility characters)
+    'nonnfc': ['e\u0301cole', 'A\u030angstrom', '\u212b', '\u2126', 'n\u0303', '\uf900', 'o\u0308', 'c\u0327a', 'u\u0302',
+               'i\u0300', '\ufb01', '\u1e9b\u0323'],
+    # long names with blanks
+    'long': [('%s is a rather long feature name with several words in it so that lines get very wide indeed' % w)
+             for w in ['Alpha', 'Beta', 'Gamma', 'Delta', 'Epsilon', 'Zeta', 'Eta', 'Theta', 'Iota', 'Kappa', 'Lambda', 'Mu']],
+    # names that look like numbers
+    'numeric': ['2024', '1e3', 'nan', 'inf', '007', 'NaN', 'Infinity', '12', '9', '1_000', '0x1F', '10'],
     'punct': ['a-b', 'x:y', '#1', 'a/b', '(p)', 'a,b', 'x=y', 'a&b', 'p|q', 'ab!', 'q?r',
-              'a+b', 's;c', 'b[0]', 'c{d}', 'a<b', 'a>b', 'at@', 'pct%', 'til~de'],
+              'a+b', 's;c', 'in//out', 'b[0]', 'c{d}', 'a<b', 'a>b', 'at@', 'pct%', 'til~de'],
     'uvlkw': ['features', 'or', 'mandatory', 'true', 'Integer', 'sum', 'constraints',
               'alternative', 'optional', 'Boolean', 'String', 'Real', 'cardinality', 'avg',
               'len', 'false', 'namespace', 'imports', 'include', 'as'],
